@@ -1,6 +1,6 @@
 (* C13 — clients come back after any connection loss and stop when told to. *)
 From Coq Require Import ZArith List Bool.
-From HP Require Import Bytes Wire WireRoundtrip ParamsOK AioSession AioFacts AioClose AioShape LegacyClient LegacyFacts.
+From HP Require Import Bytes Wire WireRoundtrip ParamsOK AioSession AioFacts AioClose AioShape LegacyClient LegacyFacts LegacyStop.
 Import ListNotations.
 
 (* ---- asyncio ClientSession ---- *)
@@ -120,6 +120,17 @@ Theorem C13_legacy_stop : forall s,
   exists evs, ltrace s2 = evs ++ ltrace s /\ forallb no_attempt evs = true /\ (In LReturn evs \/ In LCrash evs).
 Proof. exact stop_ends_run. Qed.
 
+(* the same when stop() is called from the message callback (how the model's own runs reach it): the recv() that delivered
+   that message is the last one - the rest of its frames are still handed over, then run() returns (or the reader's
+   exception leaves it); no connection attempt follows.  (C13_legacy_stop above: stop() from another thread) *)
+Theorem C13_legacy_stop_in_callback : forall s d rest,
+  lpcs s = PRecv -> lconnected s = true -> lrecv s = RData d :: rest -> lstopped (lstep s) = true ->
+  let s2 := lstep (lstep s) in
+  lpcs s2 = PStop /\
+  exists evs, ltrace s2 = evs ++ ltrace (lstep s) /\ forallb no_attempt evs = true /\
+              (In LReturn evs \/ In LCrash (ltrace (lstep s))).
+Proof. exact stop_in_callback_ends_run. Qed.
+
 Theorem C13_legacy_stopped_is_final : forall s, lpcs s = PStop -> forall n, lrun n s = s.
 Proof. exact stopped_is_final. Qed.
 
@@ -166,6 +177,7 @@ Print Assumptions C13_asyncio_control_shapes.
 Print Assumptions C13_asyncio_close_always_completes.
 Print Assumptions C13_asyncio_recovers_always.
 Print Assumptions C13_legacy_stop.
+Print Assumptions C13_legacy_stop_in_callback.
 Print Assumptions C13_legacy_stopped_is_final.
 Print Assumptions C13_legacy_loss_in_receive_loop.
 Print Assumptions C13_legacy_loss_during_handshake.
